@@ -20,7 +20,7 @@ def own_deadlock_sites(ctx, rule, fns=None):
     roles.bind(facts)
     cc_next = method(facts, T_ITER, CC, "next")
     import parser_rules as _PRS
-    cc_read = facts.fn(_PRS.pmodel(facts).read_def)      # the head reader, bound by role (what next() calls to obtain a Request)
+    cc_read = _PRS.pmodel(facts).rd if _PRS.pmodel(facts).read_h else facts.fn(_PRS.pmodel(facts).read_def)      # the head reader, bound by role (what next() calls to obtain a Request)
     n_sites = 0
     for f in (fns or [cc_next, cc_read]):
         inst = None if getattr(f, "is_inlined", False) else facts.mono_instance(f.id)
@@ -59,6 +59,8 @@ def own_deadlock_sites(ctx, rule, fns=None):
                 ty = f.local_ty(l)
                 if not holds_writer_types(ty):
                     continue
+                if ty.startswith("&"):
+                    continue        # a reference does not own what it points to (its owner is judged where it lives)
                 if l in lent and "request::Request" not in ty:
                     continue
                 v = (VF[bb] or {}).get(l)
